@@ -22,6 +22,11 @@ def doc_pool(rng):
             "![img](a.png \"t\") and [link](http://x.y/ \"T\").\n\n# Head One\n\n[Head One][]\n",
             "Term[?term] cite[#c].\n\n[?term]: glossary\n\n[#c]: Author. Title.\n",
             "| a | b |\n|---|---|\n| 1 | 2 |\n[Caption]\n\nSee [Caption][].\n", "{{TOC}}\n\n# A\n\n## B\n"]
+    # every spelling of an e-mail link on its own (each takes its own route to the obfuscator)
+    docs += ["Write to <mailto:someone%d@example.org>.\n" % rng.randint(0, 99), "<MAILTO:Big@Example.ORG> first thing.\n",
+             "A [text link](mailto:a.b@c.de) only.\n", "By reference [me][m].\n\n[m]: mailto:ref@example.com\n",
+             "Two: <mailto:one@x.y> then <two@x.y>.\n", "Two: <one@x.y> then <mailto:two@x.y>.\n",
+             "* item <mailto:list@x.y>\n* item <plain@x.y>\n", "note[^e]\n\n[^e]: <mailto:note@x.y>\n"]
     docs += [re.sub(r"\[\^", "[^", gen_md.structured(rng)) for _ in range(10)]
     return docs
 
